@@ -29,10 +29,11 @@ def parent_map(fnode) -> dict:
 
 class WFact:
     __slots__ = ('path', 'value', 'func', 'conditional', 'guard', 'keyexpr', 'node', 'conv', 'src',
-                 'literal')
+                 'literal', 'guard_test')
 
     def __init__(self, path, value, func, conditional, guard, keyexpr=None, node=None, literal=False):
         self.literal = literal      # key of a dict literal (finitely many distinct keys)
+        self.guard_test = None      # ast of the test controlling a conditional write
         self.path = path
         self.value = value
         self.func = func
@@ -104,8 +105,12 @@ def _guard_kind(cfg, node, fnode):
             if any(cfg.dominates(s, node) for s in ts):
                 best = n
     if best is None:
-        return 'other'
+        return 'other', None
     t = best.ast.test
+    return _classify_guard(t), t
+
+
+def _classify_guard(t):
     if isinstance(t, ast.Compare) and len(t.ops) == 1 and isinstance(t.ops[0], (ast.IsNot, ast.NotEq)) \
             and isinstance(t.comparators[0], ast.Constant) and t.comparators[0].value is None:
         return 'not-none'
@@ -209,6 +214,7 @@ class WriterShapes:
         n.value, n.func, n.conditional, n.guard = w.value, w.func, w.conditional, w.guard
         n.keyexpr, n.node, n.conv, n.src = w.keyexpr, w.node, w.conv, w.src
         n.literal = w.literal
+        n.guard_test = w.guard_test
         return n
 
     def _stores_into(self, f: Func, name: str, prefix, depth) -> list[WFact]:
@@ -231,7 +237,7 @@ class WriterShapes:
                     # inside a loop: conditional iff not executed on every iteration
                     from .cfg import covered
                     cond = not covered(cfg, node.loop, [node]) if False else self._cond_in_loop(cfg, node)
-                guard = _guard_kind(cfg, node, f.node) if cond else 'none'
+                guard, gtest = _guard_kind(cfg, node, f.node) if cond else ('none', None)
                 path = prefix
                 keyexpr = None
                 for k in chain:
@@ -241,7 +247,9 @@ class WriterShapes:
                     else:
                         path = path + ('*',)
                         keyexpr = k
-                out.append(WFact(path, n.value, f, cond, guard, keyexpr=keyexpr, node=node))
+                wf = WFact(path, n.value, f, cond, guard, keyexpr=keyexpr, node=node)
+                wf.guard_test = gtest
+                out.append(wf)
                 out += self.of_expr(f, n.value, path, node, depth)
             elif isinstance(n, ast.Call) and isinstance(n.func, ast.Attribute) and n.func.attr == 'append' \
                     and n.args:
